@@ -297,6 +297,25 @@ def race_run(eng, text, tag):
     mine = [b for b in reports if "jrhy/mast" in b or "/repo/" in b]
     return recs, mine, reports
 
+def hook_run(eng, text, tag):
+    ok, out, binp = eng.ck.build_go()
+    if not ok:
+        raise RuntimeError("harness build failed: " + out[-1500:])
+    hp = os.path.join(BUILD, "%s-%s.hist" % (eng.pid, tag))
+    open(hp, "w").write(text)
+    env = dict(os.environ, GORACE="halt_on_error=0 exitcode=0")
+    p = subprocess.run("%s cachehook %d < %s" % (binp, 16 if eng.tier == "quick" else 48, hp), shell=True, stdout=subprocess.PIPE, stderr=subprocess.PIPE, timeout=3000, env=env)
+    return jlines(p.stdout)
+
+def hook_fails(recs, texts):
+    fails = []
+    for d in recs:
+        for p in d["problems"]:
+            fails.append((texts.get(d["hist"], ""), Fail("alone", 0, "trees of different goroutines over one cache, interleaved at a chosen cache call, do not behave as when run alone: %s" % p[:500],
+                          {"engine": "cachehook", "history": d["hist"]})))
+            break
+    return fails
+
 def race_fails(recs, mine, texts):
     fails = []
     for d in recs:
@@ -322,6 +341,13 @@ def race(eng):
         texts[c.split("\n")[0].split()[1]] = c
     recs, mine, reports = race_run(eng, "".join(corpus) + "".join(h.text() for h in hs), "race")
     fails = race_fails(recs, mine, texts)
+    # the same histories, and further ones whose two-node cache makes nearly every descent load from the store, on one
+    # goroutine with the interleaving chosen: another goroutine's operations run right after a chosen cache call
+    hs2 = gen.prof_race(rng, n, eng.tier, cache="tiny", tag="rah")
+    for i, h in enumerate(hs2):
+        h.id = "%s-s%d-%d" % (h.id, eng.seed, i); texts[h.id] = h.text()
+    hrecs = hook_run(eng, "".join(corpus) + "".join(h.text() for h in hs + hs2), "hook")
+    fails += hook_fails(hrecs, texts)
     if mine:
         # attribute the report to a history: rerun one by one
         for hid, t in texts.items():
@@ -335,6 +361,8 @@ def race(eng):
     return {"fails": fails, "evaluations": len(recs), "distinct": [d["hist"] for d in recs],
             "coverage": {"race_histories": len(recs), "goroutines_histogram": dict(thr), "cache_modes": dict(caches),
                          "concurrent_operations": sum(d["ops"] for d in recs), "race_reports_total": len(reports), "race_reports_in_mast": len(mine),
+                         "chosen_interleavings": {"histories": len(hrecs), "interleaving_points_run": sum(d["points"] for d in hrecs),
+                                                  "cache_calls_by_kind": dict(sum((collections.Counter(d["kinds"]) for d in hrecs), collections.Counter()))},
                          "built_with": "go build -race"},
             "samples": recs[:1]}
 
@@ -344,7 +372,9 @@ def minimise_race(eng, text, fail):
 def replay_race(eng, d):
     text = d["header"] + "\n" + "\n".join(d["ops"]) + "\n"
     hit = False
-    for _ in range(5):
+    if hook_fails(hook_run(eng, text, "replayh"), {}):
+        hit = True
+    for _ in range(0 if hit else 5):
         recs, mine, _ = race_run(eng, text, "replay")
         if race_fails(recs, mine, {}):
             hit = True; break
